@@ -5,6 +5,7 @@ import pyimpl as P
 from oracle_util import *  # noqa
 from tokutil import *  # noqa
 import h1tok_util as H
+import h9_util as U
 
 ID = "C19"
 LEAN_MODULE = ["SCoda.Props.C19", "SCoda.Props.C19b", "SCoda.Props.Gaps", "SCoda.Props.TokTie", "SCoda.Props.Defs"]
@@ -36,7 +37,10 @@ RULE = ("random streams over the vocabulary of sampled configurations (<=60 toke
         "signature tokens mid-bar, unfused running values), plus streams produced by tokenise from valid pieces (the piece is the input: the "
         "oracle tokenises it, and a token outside the vocabulary is a violation, not a skipped case), with and without value imputation; "
         "configurations include other resolutions (ppqn 6/12/48/96), custom / unsorted step lists, a step above ppqn, three-digit steps, "
-        "repeated list entries and custom note values; non-trivial = stream has a note token after a rest/bar token")
+        "repeated list entries and custom note values; HISTORIES (seed round 9): before get_info a short random sequence of other public calls that read "
+        "the music-theory tables is made (get_distance / from_distance / get_position with references that are no C, key guesses, transpositions, "
+        "get_info of other streams) — the annotations of a stream do not depend on what was called before; non-trivial = stream has a note token "
+        "after a rest/bar token")
 ASSUMPTIONS = ["models: SCoda.getInfo and SCoda.detokenise, tied by translation (TokTie.getInfo_eq / detokenise_eq on rendered tokens, ppqn >= 0) and by correspondence on the same streams"]
 COF = {0: 0, 7: 1, 2: 2, 9: 3, 4: 4, 11: 5, 6: 6, 1: -5, 8: -4, 3: -3, 10: -2, 5: -1}
 
@@ -59,6 +63,11 @@ def note_onsets_by_prefix(tk, toks):
 
 
 def o_info(inp):
+    # process state (seed round 9): the circle-of-fifths annotation is read from a class-level table.  When that table no longer answers as the
+    # harness's own table does BEFORE this input does anything (an earlier input's history left it so: a new interpreter answers rightly), nothing is restored: the input is judged in
+    # a fresh interpreter, so that its verdict — and the replay file — depend on the input alone
+    if not U.IN_CHILD and not U.position_state_ok() and U.fresh_ok("position"):
+        return U.eval_fresh(ID, "info", inp)
     cfg = P.TkCfg(**inp["cfg"])
     tk = cfg.tk()
     if inp.get("tracks") is not None:
@@ -76,6 +85,10 @@ def o_info(inp):
             return [("closed", f"tokenise emitted tokens outside the vocabulary: {[t for t in toks if t not in tk.dictionary][:4]}")]
         return [("~skip:not-vocabulary", "")]
     fails = []
+    if inp.get("history"):
+        # public calls made earlier in the process, as plain data (h9_util.run_theory_op): what they return is C20's business, not judged here
+        for op in inp["history"]:
+            U.run_theory_op(op)
     if inp.get("earlier"):
         # the same tokeniser annotated earlier streams, and the caller REUSES ITS LIST OBJECT: it is rewritten in place to the stream
         # under test (resampling during generation does exactly this); the earlier streams are part of the replayable input
@@ -168,6 +181,7 @@ STEP_EXAMPLE = {"cfg": dict(num_tracks=1, step_sizes=[2, 4, 8, 48], note_values=
 
 def generate(ctx):
     rng = ctx.rng
+    pool = []
     ctx.check("info", SIG_EXAMPLE)
     ctx.check("info", STEP_EXAMPLE)
     for i in range(ctx.n(80, 2000)):
@@ -244,3 +258,24 @@ def generate(ctx):
         ctx.corr("info", P.op_info(cfg, impute, toks))
         ctx.corr("detokenise", P.op_detokenise(cfg, toks))
         ctx.sample({"cfg": {k: str(v) for k, v in kw.items()}, "toks": toks[:12], "impute": impute})
+        if from_tok:
+            pool.append({"cfg": kw, "tracks": piece["tracks"], "impute": impute, "from_tokenise": True})
+        elif any("pit" in t for t in toks):
+            pool.append({"cfg": kw, "toks": toks, "impute": impute, "from_tokenise": False})
+    # histories LAST (everything above, and the answers recorded for the correspondence, are taken in an untouched process): the streams drawn above,
+    # annotated after a short history of other public calls that read the music-theory tables
+    for j in range(ctx.n(40, 400)):
+        if not pool:
+            break
+        base = rng.choice(pool)
+        hist = U.gen_theory_history(rng, 1, 5)
+        for k in U.describe_history(hist):
+            ctx.count("history-op:" + k)
+        last = [op for op in hist if op["op"] == "distance"]
+        if last and last[-1]["a"] % 12 != 0:
+            ctx.count("history:last-distance-from-a-reference-that-is-no-C")
+        ctx.count("history:" + ("from-tokenise" if base.get("from_tokenise") else "random-stream"))
+        ctx.case(("history", hist, sorted(base["cfg"].items()), base.get("toks") or base.get("tracks"), base["impute"]), True)
+        if ctx.check("info", dict(base, history=hist)):
+            ctx.count("history:stopped-after-the-first-failing-one")
+            break
